@@ -159,7 +159,7 @@ class Real:
     def close(self):
         shutil.rmtree(self.dir, ignore_errors=True)
 
-    def const_model(self, got: list) -> str:
+    def const_model(self, got: list, path: Optional[str] = None) -> str:
         import onnx
         from onnx import helper, numpy_helper, TensorProto
         nodes, outs = [], []
@@ -173,9 +173,19 @@ class Real:
         m = helper.make_model(g, opset_imports=[helper.make_opsetid("", 21)])
         m.ir_version = 10
         self.n += 1
-        p = os.path.join(self.dir, f"m{self.n}.onnx")
+        p = path or os.path.join(self.dir, f"m{self.n}.onnx")
         onnx.save(m, p)
         return p
+
+    def run_at(self, path: str, exp: list, got: list, rtol: float, atol: float) -> tuple[bool, str]:
+        """Overwrite the model stored at `path` in place, then validate it (the file stays)."""
+        self.const_model(got, path)
+        outs = [np.asarray(e) for e in exp]
+
+        def fn(x):
+            return outs[0] if len(outs) == 1 else tuple(outs)
+
+        return self.call(fn, path, self.x, rtol=rtol, atol=atol)
 
     def call(self, fn, path, xs, *args, **kw) -> tuple[bool, str]:
         """The real allclose; an exception raised by the comparison itself (not by ONNX Runtime
@@ -882,6 +892,26 @@ def promoted(e: np.ndarray, g: np.ndarray) -> tuple[np.ndarray, np.ndarray]:
         return e.astype(c), g.astype(c)
 
 
+def overwrite_histories(rng: common.Rng, thorough: bool) -> list[list["Case"]]:
+    """Sequences of (expected, got) pairs validated one after the other against ONE model path whose
+    file is overwritten in place between the calls: match → perturbed → match → other shape → …"""
+    out = []
+    for kind in (["f32", "i32"] if not thorough else ["f32", "i32", "f64", "bool", "i64"]):
+        e = rep_values(kind, rng, 6).reshape(2, 3)
+        moved = e.copy().reshape(-1)
+        moved[rng.randint(0, 5)] = (not moved[0]) if kind == "bool" else moved[rng.randint(0, 5)] + 3
+        moved = moved.reshape(2, 3)
+        if np.array_equal(moved, e):
+            moved = moved.copy(); moved[0, 0] = e[0, 0] + 5
+        seq = [("same", [e], [e.copy()]), ("moved", [e], [moved]), ("same-again", [e], [e.copy()]),
+               ("reshaped", [e], [e.reshape(3, 2).copy()]), ("extra-output", [e], [e.copy(), e.copy()]),
+               ("same-third", [e], [e.copy()]), ("moved-again", [e], [moved.copy()])]
+        if rng.chance(0.5):
+            seq = [seq[1], seq[0]] + seq[2:]            # start from a mismatching file that is then repaired
+        out.append([Case(x, g, 1e-3, 1e-5, tag=f"overwrite/{kind}/{i}-{name}") for i, (name, x, g) in enumerate(seq)])
+    return out
+
+
 def near_boundary(c: "Case") -> bool:
     """closer to the tolerance boundary than floating-point evaluation resolves?"""
     for e, g in zip(c.exp, c.got):
@@ -970,6 +1000,25 @@ def run(chk: Check) -> None:
 
             requests.append((cmp_line(c.exp, c.got, c.rtol, c.atol, c.nchw), handle))
 
+        # ---- histories on ONE path inside this process: validate, overwrite the file in place, validate
+        # again ... — every call must judge the model stored at the path at call time
+        for hi, hist in enumerate(overwrite_histories(rng, thorough)):
+            path = os.path.join(real.dir, f"overwritten_{hi}.onnx")
+            descr = [{"tag": c.tag, "rtol": c.rtol, "atol": c.atol, "expected": [enc_tensor(e) for e in c.exp],
+                      "got": [enc_tensor(g) for g in c.got]} for c in hist]
+            for k, c in enumerate(hist):
+                ok, msg = real.run_at(path, c.exp, c.got, c.rtol, c.atol)
+
+                def handle_h(ans: str, c=c, ok=ok, msg=msg, k=k, descr=descr) -> None:
+                    tags["overwrite"] = tags.get("overwrite", 0) + 1
+                    chk.count({"tag": c.tag, "step": k, "real": ok, "model": ans}, nontrivial=True)
+                    judge(chk, c.tag, ok, msg, ans,
+                          {"overwrite_history": descr, "step": k,
+                           "how": "harness/props/c18.py::replay (re-runs all steps on one path in one process)"},
+                          c.exp, c.got, stats)
+
+                requests.append((cmp_line(c.exp, c.got, c.rtol, c.atol, c.nchw), handle_h))
+
         # ---- real exported models, perturbed; feed construction
         plines, precs = program_cases(chk, rng, real, thorough)
         for line, r in zip(plines, precs):
@@ -1051,6 +1100,33 @@ def replay(path: str) -> int:
             real.close()
         print("flag after:", after, "raised:", raised)
         return 1 if after != rep["x64_case"]["flag"] else 0
+    def dec(t):
+        dt = NP[t["k"]]
+
+        def one(v):
+            if isinstance(v, list):
+                return complex(one(v[0]), one(v[1]))
+            if v in ("nan", "inf", "-inf"):
+                return float(v)
+            return float(Fraction(v)) if t["k"] in FLT_KINDS + CPLX_KINDS else int(Fraction(v))
+        return np.array([one(v) for v in t["v"]], dtype=dt).reshape(t["s"])
+
+    if "overwrite_history" in rep:
+        real = Real()
+        bad = 0
+        try:
+            path = os.path.join(real.dir, "overwritten.onnx")
+            for k, st in enumerate(rep["overwrite_history"]):
+                exp = [dec(t) for t in st["expected"]]
+                got = [dec(t) for t in st["got"]]
+                ok, msg = real.run_at(path, exp, got, st["rtol"], st["atol"])
+                ans = common.run_driver("C18", [cmp_line(exp, got, st["rtol"], st["atol"], [])])[0]
+                flag = (ans.split()[0] == "match") != ok
+                bad += int(flag)
+                print(f"step {k} {st['tag']}: real={ok} model/spec={ans}{'   <-- DISAGREE' if flag else ''}")
+        finally:
+            real.close()
+        return 1 if bad else 0
     case = rep.get("case")
     if not case or "expected" not in case:
         return 0
